@@ -11,7 +11,7 @@ ID = "C16"
 OPT_QUICK_ALL = True      # every partition also in a child interpreter started with -O
 LEVEL = "model_checking"
 TECHNIQUE = "explicit enumeration of all attach / re-attach histories (bounded length) over simulated targets of every peripheral device type and qualifier on both transports, judged by a device-type -> command-set reference table and a differential comparison with a fresh facade"
-RULE = ("depth 1: all 32 peripheral device types x 8 qualifiers x {SG_IO, iSCSI} x {SCSI(dev), facade(dev) re-attach}; all 32 types x attach made from an except block / a finally block during propagation / a generator resumed by throw() (first attach and re-attach); all 32 types x facade subclasses with their own constructor (one that only stores the device, one with another signature) attached and re-attached by call; all 32 types x ADDITIONAL LENGTH {00,1F,5A,5B,5C,9F,FF} (first attach and re-attach); all 32 types x every single bit of INQUIRY bytes 1-7 and 56 set (the selection may depend on the device type only); histories: all sequences of "
+RULE = ("depth 1: all 32 peripheral device types x 8 qualifiers x {SG_IO, iSCSI} x {SCSI(dev), facade(dev) re-attach}; all 32 types x attach made from an except block / a finally block during propagation / a generator resumed by throw() (first attach and re-attach); all 32 types x caller-made device objects (ordinary, a list of seen commands - empty when new -, __bool__ False, __len__ 0) attached by constructor / call / call after another device; all 32 types x facade subclasses with their own constructor (one that only stores the device, one with another signature) attached and re-attached by call; all 32 types x ADDITIONAL LENGTH {00,1F,5A,5B,5C,9F,FF} (first attach and re-attach); all 32 types x every single bit of INQUIRY bytes 1-7 and 56 set (the selection may depend on the device type only); histories: all sequences of "
         "length <= 3 over device types {00,01,03,04,05,07,08,0E,1F} (9^1+9^2+9^3 per transport, mixing transports at the second step), "
         "first step by construction, later steps by calling the same facade; every history of length 2-3 also with one earlier attach refused by its device (CHECK CONDITION / BUSY to the INQUIRY): it fails and the following attaches are judged as usual. all 32 types x 5 previous sets on a device object that logs every assignment to .opcodes (the set changes in one step, no transient other set). states = distinct (facade device, per-device command set) "
         "configurations; transitions = attach events. Non-trivial = history has a re-attach or a type other than 00.")
@@ -28,7 +28,7 @@ def bounds(tier):
 
 
 def partitions(tier):
-    parts = [["depth1", tr] for tr in ("sgio", "iscsi")] + [["transient"]]
+    parts = [["depth1", tr] for tr in ("sgio", "iscsi")] + [["transient"], ["duck"]]
     for tr in ("sgio", "iscsi"):
         for t in ALPHA:
             parts.append(["hist", tr, t])
@@ -222,6 +222,86 @@ class LogDev(object):
         pass
 
 
+def duck_device(kind, dtype):
+    """device objects of the caller's own making (the facade takes anything with opcodes / execute / close) whose truth value is
+    their own business: an ordinary one, one that is a list of the commands it has seen (empty = falsy when new), one whose
+    __bool__ says "medium loaded" (False), one whose __len__ counts outstanding commands (0)"""
+    import pyscsi.pyscsi.scsi_enum_command as E
+
+    class Plain(object):
+        def __init__(self):
+            self.opcodes = E.spc
+            self.devicetype = None
+            self.seen = []
+
+        def execute(self, cmd, en_raw_sense=False):
+            self.seen.append(bytes(cmd.cdb))
+            if cmd.cdb[0] == 0x12 and len(cmd.datain):
+                cmd.datain[0] = dtype
+                if len(cmd.datain) > 4:
+                    cmd.datain[4] = 31
+
+        def close(self):
+            pass
+
+    class Recording(list):
+        opcodes = E.spc
+        devicetype = None
+
+        @property
+        def seen(self):
+            return list(self)
+
+        def execute(self, cmd, en_raw_sense=False):
+            self.append(bytes(cmd.cdb))
+            if cmd.cdb[0] == 0x12 and len(cmd.datain):
+                cmd.datain[0] = dtype
+                if len(cmd.datain) > 4:
+                    cmd.datain[4] = 31
+
+        def close(self):
+            pass
+
+    class NoMedium(Plain):
+        def __bool__(self):
+            return False
+
+    class Idle(Plain):
+        def __len__(self):
+            return 0
+    return {"plain": Plain, "recording_list": Recording, "bool_false": NoMedium, "len_zero": Idle}[kind]()
+
+
+def run_duck(case):
+    """attach (by constructor, by call on an empty facade, by call after another device) to a duck-typed device of every type:
+    exactly one standard INQUIRY, the set of the reported type"""
+    from pyscsi.pyscsi.scsi import SCSI
+    _, kind, dtype, how = case
+    dev = duck_device(kind, dtype)
+    if how == "ctor":
+        SCSI(dev)
+    elif how == "call":
+        s = SCSI(None)
+        s(dev)
+    else:
+        s = SCSI(duck_device("plain", 0x01))
+        s(dev)
+    out = []
+    where = "attach (%s) to a caller-made device object of kind %s reporting type %#04x" % (how, kind, dtype)
+    seen = dev.seen
+    if len(seen) != 1 or seen[0][0] != 0x12 or seen[0][1] & 1:
+        out.append(("duck/attach_commands", "%s: the device saw %r, expected exactly one standard INQUIRY" % (where, [c.hex() for c in seen])))
+    want = EXPECT.get(dtype)
+    if want is not None and dev.opcodes is not harness.opcode_set(want):
+        out.append(("duck/wrong_set/%02x" % dtype, "%s: the device carries a set with keys like %r, expected %s" % (where, sorted(dev.opcodes.keys)[:3], want)))
+    for k in ("INQUIRY", "TEST_UNIT_READY", "REPORT_LUNS"):
+        if k not in dev.opcodes.keys:
+            out.append(("duck/primary_missing", "%s: selected set lacks %s" % (where, k)))
+    if dev.devicetype != dtype and seen:
+        out.append(("duck/devicetype", "%s: device.devicetype=%r" % (where, dev.devicetype)))
+    return out
+
+
 def run_transient(case):
     """during an attach the device's command set goes from what it was to what the device type prescribes in ONE step: no other
     set is ever assigned in between (a second user of the same device object must never find a set that lacks its commands)"""
@@ -257,6 +337,8 @@ def run_transient(case):
 
 
 def replay(case):
+    if case[0] == "duck":
+        return run_duck(case)
     return run_transient(case) if case[0] == "transient" else run_case(case)
 
 
@@ -281,6 +363,23 @@ def run_partition(part, tier, seed):
         acc.transitions += len(steps)
         acc.traces += 1
 
+    if part[0] == "duck":
+        for kind in ("plain", "recording_list", "bool_false", "len_zero"):
+            for dtype in range(32):
+                for how in ("ctor", "call", "recall"):
+                    case = ["duck", kind, dtype, how]
+                    acc.case(case, nontrivial=True, key=repr(case))
+                    try:
+                        v = run_duck(case)
+                    except Exception:
+                        import traceback
+                        v = [("harness_error", traceback.format_exc()[-600:])]
+                    for k, w in v:
+                        acc.violation(k, w, case)
+                    acc.outcome((repr(case), tuple(k for k, _ in v)))
+                    acc.transitions += 1
+                    acc.traces += 1
+        return acc
     if part[0] == "transient":
         for dtype in range(32):
             for start in ("spc", "sbc", "ssc", "smc", "mmc"):
